@@ -155,7 +155,7 @@ extern Lib	libNew			(FileName, Bool, FILE *, Offset);
 extern Lib	libExtract		(FileName, FILE *, Offset);
 extern Lib	libRead			(FileName);
 extern Lib	libWrite		(FileName);
-extern void	libClose		(Lib);
+extern Bool	libClose		(Lib);	/* false: a write failed */
 extern Bool	libEqual		(Lib, Lib);
 extern Hash	libHash			(Lib);
 
